@@ -1857,3 +1857,81 @@ def expand_cm_classes(tree: ast.Module, known: Set[str]) -> List[str]:
             tree.body[:] = [x for x in tree.body if x is not classes[name]]
     return sorted(set(log))
 
+
+# ---- a record held in an attribute ------------------------------------------------------------------------------------------------------------
+
+def flatten_attribute_records(tree: ast.Module, known: Set[str]) -> List[str]:
+    """`self._layout = _Layout(internal_dir=a, data_dir=b)` in a constructor, where `_Layout` is a private record (dataclass / NamedTuple) that the reference tree does
+    not have, and every other mention of `self._layout` in the class is a read of one of its fields: the class holds the fields themselves -
+    `self._layout__internal_dir = a`, `self._layout__data_dir = b`, reads accordingly.  (Methods of the record with one `return` were expanded before.)"""
+    log: List[str] = []
+    records: Dict[str, List[str]] = {}
+    for st in tree.body:
+        if isinstance(st, ast.ClassDef) and st.name.startswith("_") and st.name not in known:
+            is_record = any(ast.unparse(b).split(".")[-1] == "NamedTuple" for b in st.bases) or any("dataclass" in ast.unparse(d) for d in st.decorator_list)
+            if is_record:
+                records[st.name] = [x.target.id for x in st.body if isinstance(x, ast.AnnAssign) and isinstance(x.target, ast.Name)]
+    if not records:
+        return log
+    for cls in [st for st in tree.body if isinstance(st, ast.ClassDef) and st.name not in records]:
+        init = next((m for m in cls.body if isinstance(m, ast.FunctionDef) and m.name == "__init__"), None)
+        if init is None:
+            continue
+        for asg in [x for x in ast.walk(init) if isinstance(x, (ast.Assign, ast.AnnAssign))]:
+            tg = asg.targets[0] if isinstance(asg, ast.Assign) and len(asg.targets) == 1 else (asg.target if isinstance(asg, ast.AnnAssign) else None)
+            v = asg.value
+            if not (isinstance(tg, ast.Attribute) and isinstance(tg.value, ast.Name) and tg.value.id == "self" and isinstance(v, ast.Call) and isinstance(v.func, ast.Name)
+                    and v.func.id in records):
+                continue
+            attr, fields = tg.attr, records[v.func.id]
+            vals: Dict[str, ast.AST] = {}
+            ok = len(v.args) <= len(fields) and not any(isinstance(a, ast.Starred) for a in v.args)
+            for i, a in enumerate(v.args[:len(fields)]):
+                vals[fields[i]] = a
+            for k in v.keywords:
+                if k.arg in fields and k.arg not in vals:
+                    vals[k.arg] = k.value
+                else:
+                    ok = False
+            if not ok or set(vals) != set(fields):
+                continue
+            # every other mention of self.<attr> is `self.<attr>.<field>` (a read)
+            mentions = [n for n in ast.walk(cls) if isinstance(n, ast.Attribute) and n.attr == attr and isinstance(n.value, ast.Name) and n.value.id == "self" and n is not tg]
+            par: Dict[int, ast.AST] = {}
+            for p_ in ast.walk(cls):
+                for c_ in ast.iter_child_nodes(p_):
+                    par[id(c_)] = p_
+            rcls = next(x for x in tree.body if isinstance(x, ast.ClassDef) and x.name == v.func.id)
+            statics = {m_.name for m_ in rcls.body if isinstance(m_, ast.FunctionDef) and any(ast.unparse(d_) in ("staticmethod", "classmethod") for d_ in m_.decorator_list)}
+            if not all(isinstance(par.get(id(n)), ast.Attribute) and par[id(n)].value is n and (par[id(n)].attr in fields or par[id(n)].attr in statics)  # type: ignore
+                       and isinstance(par[id(n)].ctx, ast.Load) for n in mentions):  # type: ignore
+                continue
+            # a static / class method reached through the instance is the method of the class
+            for n in mentions:
+                pa = par[id(n)]
+                if pa.attr in statics:  # type: ignore
+                    pa.value = ast.copy_location(ast.Name(id=rcls.name, ctx=ast.Load()), n)  # type: ignore
+            if any(isinstance(n, ast.Attribute) and n.attr == attr and not (isinstance(n.value, ast.Name) and n.value.id == "self") for n in ast.walk(tree)):
+                continue  # read from outside through another name: left alone
+
+            class R(ast.NodeTransformer):
+                def visit_Attribute(self, node: ast.Attribute) -> ast.AST:
+                    if isinstance(node.value, ast.Attribute) and node.value.attr == attr and isinstance(node.value.value, ast.Name) and node.value.value.id == "self" and node.attr in fields:
+                        return ast.copy_location(ast.Attribute(value=ast.Name(id="self", ctx=ast.Load()), attr=f"{attr}__{node.attr}", ctx=node.ctx), node)
+                    self.generic_visit(node)
+                    return node
+            R().visit(cls)
+            new = []
+            for fld in fields:
+                a2 = ast.Assign(targets=[ast.Attribute(value=ast.Name(id="self", ctx=ast.Load()), attr=f"{attr}__{fld}", ctx=ast.Store())], value=vals[fld], type_comment=None)
+                new.append(ast.fix_missing_locations(ast.copy_location(a2, asg)))
+            for holder in ast.walk(init):
+                for bf in ("body", "orelse", "finalbody"):
+                    b = getattr(holder, bf, None)
+                    if isinstance(b, list) and any(x is asg for x in b):
+                        i = [j for j, x in enumerate(b) if x is asg][0]
+                        b[i:i + 1] = new
+            ast.fix_missing_locations(cls)
+            log.append(f"{cls.name}: the record `self.{attr}` ({v.func.id}) held as its fields")
+    return log
+
